@@ -260,4 +260,12 @@ def Analysis.mainActivity (a : Analysis) : Option Str :=
     | some g => some g
     | none => minStr main
 
+/-- from the bytes of AndroidManifest.xml: the printer (`AXMLPrinter(data)`, `is_valid()`, `get_xml_obj()`; C26) followed by
+    `_apk_analysis` — what `APK.__init__` does once apkInspector has read the entry from the archive.  `opq` renders floats,
+    dimensions and fractions (C27). -/
+def analyseFile (opq : Nat → Nat → Str) (b : Bytes) : Except String Analysis :=
+  match printAxml opq b with
+  | .error e => .error e
+  | .ok (valid, t) => .ok (analyse (if valid then t else none))
+
 end AgVerif.Manifest
